@@ -3,11 +3,32 @@ package rules
 import (
 	"go/ast"
 	"go/token"
+	"go/types"
 	"strings"
+
+	"golang.org/x/tools/go/cfg"
 
 	"mlverif/core"
 	"mlverif/gea"
 )
+
+// relOf reads the relation of value a to value b (LT/EQ/GT, "" when the path
+// did not compare them) from a cube's cmp atoms, whichever operand order the
+// atom was recorded in.
+func relOf(cube map[string]string, a, b string) string {
+	if v, ok := cube["cmp("+a+","+b+")"]; ok {
+		return v
+	}
+	switch cube["cmp("+b+","+a+")"] {
+	case "LT":
+		return "GT"
+	case "GT":
+		return "LT"
+	case "EQ":
+		return "EQ"
+	}
+	return ""
+}
 
 func init() {
 	register("C03", func(c *Ctx) {
@@ -75,13 +96,38 @@ func init() {
 		xs := c.flow(sc, map[string]string{})
 		okScale := false
 		for _, ex := range xs.Exits {
-			if len(ex.Ret) == 1 && strings.HasPrefix(untok(ex.Ret[0]), "(timeout*(time.Duration(m.score)+1))") {
+			if len(ex.Ret) != 1 {
+				continue
+			}
+			r := untok(ex.Ret[0])
+			if strings.HasPrefix(r, "(timeout*(time.Duration(m.score)+1))") {
 				okScale = true
+			}
+			// the score may be read through an accessor method that returns the field
+			for _, fn := range c.P.SortedFuncs() {
+				if !strings.HasPrefix(fn.Name, "awareness.") || fn.Decl.Type.Params.NumFields() != 0 {
+					continue
+				}
+				short := strings.TrimPrefix(fn.Name, "awareness.")
+				if !strings.HasPrefix(r, "(timeout*(time.Duration(m."+short+"())+1))") {
+					continue
+				}
+				ax := c.flow(fn, map[string]string{})
+				all := len(ax.Exits) > 0
+				for _, aex := range ax.Exits {
+					if len(aex.Ret) != 1 || untok(aex.Ret[0]) != "m.score" {
+						all = false
+					}
+				}
+				if all {
+					okScale = true
+				}
 			}
 		}
 		c.Check("C03/probe/scaled-deadline", "the per-probe deadline is ProbeInterval x (health score + 1), and the score is clamped to [0, max-1] (C19), so the deadline is bounded by AwarenessMaxMultiplier x ProbeInterval", sc.Decl.Pos(), okScale, "ScaleTimeout does not return timeout * (score + 1)")
 		checkAwareness(c)
 
+		checkTimerCancel(c, "C03")
 		// 6. live peers stay in the probe list: only old dead/left records are moved to the reaped tail
 		checkReaper(c, "C03")
 	})
@@ -132,65 +178,71 @@ func checkProbeScheduler(c *Ctx, prop string) {
 			}
 			cur := e.Store["m.probeIndex"].S
 			c.Check(prop+"/scheduler/cursor-advance", rule, e.Pos, e.Seen["W:Memberlist.probeIndex"] >= 1 && (cur == "("+idx+"+1)" || strings.HasPrefix(cur, "incdec")), "cursor is "+untok(cur)+" after probing index "+untok(idx))
+		case "CALL:Memberlist.resetNodes":
+			// reaping (and the reset that follows it) happens only when the cursor
+			// has reached the end of the list: cursor >= len(nodes) on this path
+			cur := e.Store["m.probeIndex"].S
+			if cur == "" {
+				cur = "m.probeIndex"
+			}
+			rel := relOf(e.Cube, cur, "len(m.nodes)")
+			c.Check(prop+"/scheduler/reset-on-wrap", rule, e.Pos, rel == "GT" || rel == "EQ", "reaper / cursor reset reachable with cursor "+untok(cur)+" "+map[string]string{"": "?", "LT": "<"}[rel]+" len(nodes): the pass restarts before every record was visited")
 		case "W:Memberlist.probeIndex":
 			if e.Detail["val"] == "0" {
-				// structural: the reset sits in the wrap-around branch, after the reaper call
-				okWrap := false
-				ast.Inspect(fn.Decl.Body, func(nd ast.Node) bool {
-					ifs, isIf := nd.(*ast.IfStmt)
-					if !isIf {
-						return true
-					}
-					cond := norm(p.Canon(ifs.Cond))
-					if cond != "(m.probeIndex>=len(m.nodes))" && cond != "(len(m.nodes)<=m.probeIndex)" {
-						return true
-					}
-					reaped := false
-					for _, st := range ifs.Body.List {
-						if es, isE := st.(*ast.ExprStmt); isE {
-							if call, isC := es.X.(*ast.CallExpr); isC {
-								if f := p.Callee(call); f != nil && p.ByObj[f] != nil && isReaper(c, p.ByObj[f]) {
-									reaped = true
-								}
-							}
-						}
-						if as, isA := st.(*ast.AssignStmt); isA && as.Pos() <= e.Pos && e.Pos <= as.End() && reaped {
-							okWrap = true
-						}
-					}
-					return true
-				})
-				c.Check(prop+"/scheduler/reset-on-wrap", rule, e.Pos, okWrap && e.Seen["CALL:Memberlist.resetNodes"] >= 1, "cursor reset outside the wrap-around branch or before reaping")
+				// the reset follows a reaper call on this path (that call is judged below)
+				c.Check(prop+"/scheduler/reset-on-wrap", rule, e.Pos, e.Seen["CALL:Memberlist.resetNodes"] >= 1, "cursor reset without reaping first")
 			} else {
 				c.Check(prop+"/scheduler/cursor-step", rule, e.Pos, strings.HasSuffix(e.Detail["val"], "+1)") || strings.HasPrefix(e.Detail["val"], "incdec"), "cursor written with "+untok(e.Detail["val"]))
 			}
 		}
 	}
 	c.Floor("probe calls in the scheduler", n, 1)
-	// every goto back to the start is preceded by counting the retry
-	ngoto := 0
-	ast.Inspect(fn.Decl.Body, func(nd ast.Node) bool {
-		bl, ok := nd.(*ast.BlockStmt)
-		if !ok {
-			return true
-		}
-		for i, s := range bl.List {
-			br, ok := s.(*ast.BranchStmt)
-			if !ok || br.Tok != token.GOTO {
-				continue
-			}
-			ngoto++
-			counted := false
-			for j := 0; j < i; j++ {
-				if inc, ok := bl.List[j].(*ast.IncDecStmt); ok && inc.Tok == token.INC && strings.HasPrefix(p.Canon(inc.X), "numCheck") {
-					counted = true
+	// every way back to the start counts towards the bound: every cycle of the
+	// control-flow graph passes through an increment of the counter that the
+	// exit test compares with the list length
+	g := cfg.New(fn.Decl.Body, func(call *ast.CallExpr) bool { return p.Builtin(call) != "panic" })
+	uncounted := token.NoPos
+	incBlocks := map[*cfg.Block]bool{}
+	for _, b := range g.Blocks {
+		for _, nd := range b.Nodes {
+			if inc, ok := nd.(*ast.IncDecStmt); ok && inc.Tok == token.INC {
+				if id, ok := ast.Unparen(inc.X).(*ast.Ident); ok {
+					if v, ok := p.Info.Uses[id].(*types.Var); ok && v.Parent() != p.Types.Scope() && !v.IsField() {
+						incBlocks[b] = true
+					}
 				}
 			}
-			c.Check(prop+"/scheduler/retry-counted", rule, br.Pos(), counted, "retry without counting it: the pass is no longer bounded by the list length")
 		}
-		return true
-	})
-	c.Floor("scheduler retries", ngoto, 2)
+	}
+	// a cycle avoiding every counting block = a retry that is not counted
+	color := map[*cfg.Block]int{}
+	var dfs func(b *cfg.Block)
+	dfs = func(b *cfg.Block) {
+		color[b] = 1
+		for _, sc := range b.Succs {
+			if incBlocks[sc] {
+				continue
+			}
+			switch color[sc] {
+			case 0:
+				dfs(sc)
+			case 1:
+				if len(sc.Nodes) > 0 {
+					uncounted = sc.Nodes[0].Pos()
+				} else {
+					uncounted = fn.Decl.Pos()
+				}
+			}
+		}
+		color[b] = 2
+	}
+	for _, b := range g.Blocks {
+		if color[b] == 0 && !incBlocks[b] && b.Live {
+			dfs(b)
+		}
+	}
+	c.Check(prop+"/scheduler/retry-counted", rule, fn.Decl.Pos(), uncounted == token.NoPos, "a path leads back to the start of the scheduler without incrementing a local counter (around "+p.Pos(uncounted)+"): the pass is no longer bounded by the list length")
+	c.Floor("scheduler counting blocks", len(incBlocks), 1)
 	// the bound: returns when the count reaches the list length
 	bounded := false
 	for _, ex := range x.Exits {
